@@ -13,7 +13,7 @@ static const int IDXS[] = { 0, 17, 40, 300 };
 static const long GROWS[] = { 64, 1000 };
 #define NG 2
 #define MAXT 3
-#define MAXOPS 2
+#define MAXOPS 4
 struct op { int is_grow; long arg; };
 static struct op SCR[MAXT][MAXOPS];
 static int nthreads, nops, use_key;
@@ -101,6 +101,7 @@ static void init(void)
 {
 	nthreads = (int)vp_param("threads", 2, 3);
 	nops = (int)vp_param("ops_per_thread", 2, 1);
+	if (nops > MAXOPS) vp_broken("ops_per_thread is limited to %d", MAXOPS);
 	use_key = (int)vp_param("state_key", 1, 1);
 }
 
